@@ -250,13 +250,20 @@ func c25Layout(c *core.Ctx, work string, idx int) {
 	defer func() { _ = w.DB.Close() }()
 	w.Locality = 5 + r.Intn(30)
 	phases := 2 + r.Intn(4)
+	manyTables := idx%2 == 1
+	if manyTables {
+		// many small, mostly disjoint tables on the base level, written at different times (their
+		// maximum versions differ, which is what SinceTs filters tables by)
+		w.Locality, w.NoWide = 3+r.Intn(4), true
+		phases = 8 + r.Intn(8)
+	}
 	for p := 0; p < phases; p++ {
 		for i := 0; i < 10+r.Intn(60); i++ {
 			_ = w.RandomCommit(0.1, 0.1)
 		}
 		if p < phases-1 {
 			w.Flush() // moves the window: the next table / the final memtable covers another key range
-			if r.Intn(2) == 0 {
+			if manyTables || r.Intn(2) == 0 {
 				w.CompactForce(0, 1)
 			}
 		}
@@ -303,6 +310,56 @@ func c25Layout(c *core.Ctx, work string, idx int) {
 		c.Count("stream.layout_runs", 1)
 		c.Count("stream.kvs_delivered", int64(len(sr.KVs)))
 	}
+	if os.Getenv("VERIF_DEBUG") != "" {
+		fmt.Println("DEBUG layout tables:", w.Witness()["tables"])
+	}
+	// incremental streams (SinceTs somewhere inside the version range, with and without a prefix),
+	// two runs each on the same quiescent database: exactly the visible keys newer than SinceTs
+	maxTs := w.M.MaxTs()
+	for rep := 0; rep < 4 && maxTs > 2; rep++ {
+		since := 1 + uint64(r.Int63n(int64(maxTs-1)))
+		var prefix []byte
+		if rep%2 == 0 {
+			prefix = []byte{[]byte{0x00, 'a', 'b', 0xFF}[r.Intn(4)]}
+		}
+		for _, numGo := range []int{1, 4} {
+			sr := runStream(db, &clock, numGo, prefix, since, false)
+			c.Eval(1)
+			info := map[string]any{"options": name, "numGo": numGo, "prefix": fmt.Sprintf("%x", prefix), "since": since, "tables": w.Witness()["tables"], "kvs": len(sr.KVs)}
+			seen := map[string]int{}
+			for _, kv := range sr.KVs {
+				seen[kv.Key]++
+			}
+			for k, n := range seen {
+				v, ok := want[k]
+				switch {
+				case n > 1:
+					c.Violation("C25|layout|since|duplicate-key", fmt.Sprintf("key %x was delivered %d times by an incremental stream (SinceTs %d, prefix %x) over a quiescent database", k, n, since, prefix), info)
+				case !ok || v.Ts <= since || !bytes.HasPrefix([]byte(k), prefix):
+					c.Violation("C25|layout|since|unexpected-key", fmt.Sprintf("key %x delivered by an incremental stream (SinceTs %d, prefix %x) although it is not a visible key newer than SinceTs under the prefix", k, since, prefix), info)
+				}
+			}
+			for k, v := range want {
+				if v.Ts > since && bytes.HasPrefix([]byte(k), prefix) && seen[k] == 0 {
+					c.Violation("C25|layout|since|missing-key", fmt.Sprintf("visible key %x@%d (newer than SinceTs %d, prefix %x) was not delivered", k, v.Ts, since, prefix), info)
+					break
+				}
+			}
+			c.Count("stream.layout_since_runs", 1)
+		}
+	}
+	// and the plain stream must still be complete afterwards
+	sr := runStream(db, &clock, 2, nil, 0, false)
+	seenAfter := map[string]int{}
+	for _, kv := range sr.KVs {
+		seenAfter[kv.Key]++
+	}
+	for k := range want {
+		if seenAfter[k] != 1 {
+			c.Violation("C25|layout|after-incremental-streams", fmt.Sprintf("after the incremental streams a plain stream delivered visible key %x %d times", k, seenAfter[k]), map[string]any{"options": name})
+			break
+		}
+	}
 	c.Distinct(fmt.Sprintf("layout|%s|phases=%d|tables=%d", name, phases, min(len(db.Tables()), 5)))
 }
 
@@ -312,7 +369,7 @@ func C25(c *core.Ctx) {
 		"without Prefix, ChooseKey and SinceTs, over data spread by tiny memtables/tables so that Ranges yields many splits, with delays at stream.beforeTxn / stream.range; " +
 		"Send records every KV and the maximum number of concurrent Send calls; oracle: per key the set of snapshot timestamps that explain what was delivered (or not " +
 		"delivered) is computed from the final model, and the intersection over all chosen keys with [last commit acknowledged before Orchestrate, inf) must be non-empty; each " +
-		"key at most once; nothing outside Prefix/ChooseKey; plus quiescent layout cases (few small tables, memtables covering lower/higher/overlapping key ranges) streamed with NumGo 1/2/8: every visible key exactly once at its newest version; distinct = (options, NumGo, prefix/choose/since, commits-overlapped) classes")
+		"key at most once; nothing outside Prefix/ChooseKey; plus quiescent layout cases (few small tables, memtables covering lower/higher/overlapping key ranges) streamed with NumGo 1/2/8: every visible key exactly once at its newest version, then incremental streams (SinceTs inside the version range, with and without Prefix) deliver exactly the visible keys newer than SinceTs, and a final plain stream is still complete; distinct = (options, NumGo, prefix/choose/since, commits-overlapped) classes")
 	work := c.WorkDir()
 	defer os.RemoveAll(work)
 	idx := 0
@@ -357,13 +414,19 @@ func C25(c *core.Ctx) {
 						var prefix []byte
 						var since uint64
 						choose := false
-						switch r.Intn(4) {
+						switch r.Intn(6) {
 						case 1:
 							prefix = []byte{[]byte{0x00, 'a', 'b', 0xFF}[r.Intn(4)]}
 						case 2:
 							choose = true
 						case 3:
 							since = uint64(1 + r.Intn(50))
+						case 4: // incremental stream of a prefix
+							prefix = []byte{[]byte{0x00, 'a', 'b', 0xFF}[r.Intn(4)]}
+							since = uint64(1 + r.Intn(400))
+						case 5:
+							choose = true
+							since = uint64(1 + r.Intn(400))
 						}
 						runs = append(runs, runStream(dbh, &engine.Clock, numGo, prefix, since, choose))
 					}
